@@ -17,7 +17,7 @@
 From Coq Require Import String ZArith List Bool Sorting.Sorted.
 From V Require Import Base.UString Base.Json Model.Timestamp Model.Versioning Spec.VersioningSpec
   Spec.TimestampSpec Gen.VersioningTables Proofs.VersioningFacts Proofs.VersioningProofs Proofs.VersioningChain
-  Proofs.VersioningText Proofs.VersioningRefute.
+  Proofs.VersioningText Proofs.VersioningRefute Proofs.VersioningAudit.
 Import ListNotations.
 Open Scope bool_scope. Open Scope list_scope. Open Scope Z_scope.
 
@@ -145,6 +145,32 @@ Print Assumptions revoke_revokes.
 Theorem revoked_chain_ends : forall T nm cp ck ops c d, revoked_flag d = true -> new_versions T nm cp ck c d ops = [].
 Proof. exact revoked_chain_lemma. Qed.
 Print Assumptions revoked_chain_ends.
+
+(* ---- which exception a refusal is (the theorems above only say "no new version") ---- *)
+Theorem revoked_raises : forall T nm cp ck c d ch now v, check_versionable T c d = Ok v -> revoked_flag d = true ->
+  new_version T nm cp ck c d ch now = Raise "RevokeError"%string.
+Proof. exact revoked_raises_lemma. Qed.
+Print Assumptions revoked_raises.
+
+Theorem revoke_revoked_raises : forall T nm cp ck c d now, c <> CNonMapping -> revoked_flag d = true ->
+  revoke T nm cp ck c d now = Raise "RevokeError"%string.
+Proof. exact revoke_revoked_raises_lemma. Qed.
+Print Assumptions revoke_revoked_raises.
+
+Theorem unmodifiable_raises : forall T nm cp ck c d ch now v locked k, check_versionable T c d = Ok v -> revoked_flag d = false ->
+  sco_locked T d = Ok locked -> In k (t_unmod T ++ locked) -> has_key k ch = true ->
+  new_version T nm cp ck c d ch now = Raise "UnmodifiablePropertyError"%string.
+Proof. exact unmodifiable_raises_lemma. Qed.
+Print Assumptions unmodifiable_raises.
+
+Theorem supplied_not_later_raises : forall T nm cp ck c d ch now v locked old s nmv dlt, check_versionable T c d = Ok v ->
+  revoked_flag d = false -> sco_locked T d = Ok locked ->
+  existsb (fun k => has_key k ch) (t_unmod T ++ locked) = false ->
+  parse_ts nm v (version_time d) = Ok old -> plookup kmod ch = Some s -> parse_ts nm v (Some s) = Ok nmv ->
+  ts_diff nmv old = Some dlt -> dlt <= 0 ->
+  new_version T nm cp ck c d ch now = Raise "InvalidValueError"%string.
+Proof. exact supplied_not_later_raises_lemma. Qed.
+Print Assumptions supplied_not_later_raises.
 
 (* ---- along any chain of new_version / revoke / marking operations, with any clock readings,
    the serialized modified times strictly increase (induction over the history).  op_ok: keyword
